@@ -449,12 +449,12 @@ def make_script(vs, r, probes_model, rng, level="std", str_cap=48, pairs_cap=36,
     # the contract, so every thread's observations are what it would see alone (whatever the schedule) ----
     if level in ("std", "full", "light") and call_lines:
         for j in range(1 if level == "std" else 4):
-            nthreads = rng.choice([2, 3, 4])
+            nthreads = rng.choice([2, 3, 4]) if level != "light" else 2
             prog = []
             for tid in range(nthreads):
                 src = rng.choice(["iter", "names", full_new] + (["range %s %s" % (bits(rng.choice(reals)), bits(rng.choice(reals)))] if n > 1 else []))
                 steps = [("new", src)]
-                for _ in range(rng.randint(6, 24)):
+                for _ in range(rng.randint(6, 24) if level != "light" else rng.randint(4, 10)):
                     t = rng.random()
                     if t < 0.5:
                         steps.append(("callline", rng.choice(call_lines)))
